@@ -132,22 +132,23 @@ def rule_k2(ctx):
             if not loops:
                 res.bad(Finding("K2", f["id"], "%s outside a loop" % v, "the error is constructed outside the collection loop", sp))
                 continue
-            outer = max(loops, key=lambda l: len(l["body"]))
-            # the pushed error must not be followed by a loop exit other than iterator exhaustion
-            region = outer["body"]
-            next_blocks = set()
+            # none of the loops around the error site may be left other than by exhausting its own iterator
+            early = []
             for lp in loops:
-                for b in lp["body"]:
+                region = lp["body"]
+                own_next = set()
+                for b in region:
                     t = body.term(b)
                     if t and t["k"] == "call" and t["func"].get("declared") == "std::iter::Iterator::next":
-                        next_blocks |= C06._next_test_blocks(body, b, lp["body"])
-            early = []
-            for u in region:
-                if body.blocks[u]["cleanup"]:
-                    continue
-                for s in body.succs(u):
-                    if s not in region and u not in next_blocks and s in can_return:
-                        early.append(u)
+                        inner = [l2 for l2 in body.loops() if b in l2["body"]]
+                        if min(inner, key=lambda l2: len(l2["body"]))["header"] == lp["header"]:
+                            own_next |= C06._next_test_blocks(body, b, region)
+                for u in region:
+                    if body.blocks[u]["cleanup"]:
+                        continue
+                    for s in body.succs(u):
+                        if s not in region and u not in own_next and s in can_return:
+                            early.append(u)
             if early:
                 res.bad(Finding("K2", f["id"], "collection of %s stops early" % v, "the loop that collects %s errors can be left before all constants were looked at" % v, body.term(early[0])["sp"]))
             else:
